@@ -99,7 +99,7 @@ func (vc *FuncVC) call(b *ssa.BasicBlock, idx int, ins ssa.Instruction, c *ssa.C
 		}
 	} else if con != nil && len(con.ParamNames) > 0 {
 		names := con.ParamNames
-		if c.IsInvoke() {
+		if c.IsInvoke() || (sig.Recv() != nil && len(names) == len(args)-1) {
 			argNames = append(argNames[:0], "recv")
 			argNames = append(argNames, names...)
 		} else {
